@@ -13,7 +13,10 @@ RULE = ('for every enum factory: every value of the 1-byte space and (quick: eve
         'boundaries and a seeded sample; thorough: every value) of the 2-byte space, boundary/member/seeded values of the '
         '3- and 4-byte spaces, each parsed alone (strict), and in arrays with the fallback class (as inside its list '
         'container); every IntEnum converter over its whole 1-byte space or members+-1; every string-coded enumeration '
-        'over all members, case variants, prefixes/extensions. Non-trivial: the code is not 0; distinct: (table, op, bytes).')
+        'over all members, case variants, prefixes/extensions; every concrete list-container class of code points is fed '
+        'member/unknown/GREASE codes in several orders through its own parse_exact_size and every enum-valued single field of '
+        'the generated message classes is set to every member, composed and parsed; every length-prefixed string code (ALPN/NPN '
+        'names) is fed with invalid-UTF-8, case and prefix/extension variants of every member. Non-trivial: the code is not 0; distinct: (table, op, bytes).')
 ASSUMPTIONS = ['cryptodatahub supplies the enum classes; their tables are extracted from the live objects, not assumed']
 
 
@@ -317,6 +320,227 @@ def gen_cases(rng, tier):
     return cases
 
 
+# ------------------------------------------------------------------------------------------------
+# code points inside the REAL list containers and at single-field positions of messages
+# ------------------------------------------------------------------------------------------------
+
+def coded_vector_classes():
+    """concrete ArrayBase subclasses whose items are code points of an enum factory: (class, factory, enum, k)"""
+    from cryptoparser.common import base
+    _mods()
+    out = []
+    for cls in _all_sub(base.ArrayBase):
+        if inspect.isabstract(cls):
+            continue
+        try:
+            param = cls.get_param()
+        except Exception:  # pylint: disable=broad-except
+            continue
+        f = getattr(param, 'item_class', None)
+        if not (inspect.isclass(f) and issubclass(f, base.NByteEnumParsable)):
+            continue
+        try:
+            out.append((cls, f, f.get_enum_class(), f.get_byte_num()))
+        except NotImplementedError:
+            continue
+    return sorted(out, key=lambda t: t[0].__name__)
+
+
+def vector_case_props(case):
+    """case {'kind':'vec','cls':name,'codes':[...]}: the list container of the class decodes every code on the wire
+    to the member carrying it or preserves it verbatim, in order, dropping and merging nothing"""
+    by_name = {c.__name__: (c, f, e, k) for c, f, e, k in coded_vector_classes()}
+    cls, f, e, k = by_name[case['cls']]
+    param = cls.get_param()
+    codes = case['codes']
+    body = b''.join(c.to_bytes(k, 'big') for c in codes)
+    wire = len(body).to_bytes(param.item_num_size, 'big') + body
+    known = {}
+    for m in e:
+        known.setdefault(m.value.code, m)
+    name = cls.__name__
+    try:
+        items = list(cls.parse_exact_size(wire))
+    except Exception as exc:  # pylint: disable=broad-except
+        line = core.err_line(exc)
+        unknown = any(c not in known for c in codes)
+        too_small = len(body) < param.min_byte_num or len(body) > param.max_byte_num
+        if too_small or (unknown and getattr(param, 'fallback_class', None) is None and line == 'ERR InvalidValue'):
+            return []
+        return [('container-error:' + name, '{}: codes {} in the container -> {}'.format(name, codes, line))]
+    if len(items) != len(codes):
+        return [('container-dropped:' + name, '{}: {} codes on the wire, {} items decoded ({})'.format(
+            name, len(codes), len(items), [getattr(getattr(i, 'value', None), 'code', None) for i in items]))]
+    bad = []
+    for c, item in zip(codes, items):
+        got = getattr(getattr(item, 'value', None), 'code', None)
+        if got != c:
+            bad.append(('container-redirected:' + name, '{}: code {} decoded as code {}'.format(name, c, got)))
+        elif c in known and item is not known[c]:
+            bad.append(('container-not-member:' + name, '{}: known code {} decoded as {!r}'.format(name, c, item)))
+    try:
+        again = bytes(cls(items).compose())
+        if again != wire:
+            bad.append(('container-recompose:' + name, '{}: codes {} re-encode to {}'.format(name, codes, hx(again))))
+    except Exception as exc:  # pylint: disable=broad-except
+        bad.append(('container-recompose:' + name, '{}: codes {} cannot be composed again: {}'.format(
+            name, codes, core.err_line(exc))))
+    return bad
+
+
+def vector_cases(rng, tier):
+    cases = []
+    for cls, f, e, k in coded_vector_classes():
+        members = [m.value.code for m in e]
+        space = 256 ** k
+        unknown = [c for c in grease_values(k) + [space - 1, space - 2, 0x0b % space, 0x2a % space, 0x5a5a % space]
+                   if c not in set(members)]
+        n = 40 if tier == 'quick' else 600
+        picks = []
+        for _ in range(n):
+            m1, m2 = rng.choice(members), rng.choice(members)
+            u = rng.choice(unknown) if unknown else m1
+            picks += [[m1], [u], [u, m1], [m1, u], [u, m1, u, m2], [m1, m2, u]]
+        seen = set()
+        for codes in picks:
+            t = tuple(codes)
+            if t in seen:
+                continue
+            seen.add(t)
+            cases.append({'kind': 'vec', 'cls': cls.__name__, 'codes': codes})
+    return cases
+
+
+def opaque_enum_classes():
+    from cryptoparser.common import base
+    _mods()
+    return sorted([c for c in _all_sub(base.OpaqueEnumParsable) if not inspect.isabstract(c)], key=lambda c: c.__name__)
+
+
+def opaque_case_props(case):
+    """case {'kind':'openum','cls':name,'data':hex of the length-prefixed name}: a length-prefixed string code is
+    decoded to the member carrying exactly these bytes or rejected - never to a member with other bytes"""
+    by_name = {c.__name__: c for c in opaque_enum_classes()}
+    cls = by_name[case['cls']]
+    wire = core.unhx(case['data'])
+    try:
+        item, n = cls.parse_immutable(wire)
+    except Exception as exc:  # pylint: disable=broad-except
+        line = core.err_line(exc)
+        if line.startswith('ERR '):
+            return []
+        return [('openum-crash:' + cls.__name__, '{}: {} raised {}'.format(cls.__name__, case['data'], line))]
+    code = item.value.code.encode(cls.get_encoding())
+    again = len(code).to_bytes(cls.get_param().item_num_size, 'big') + code
+    if again != wire[:n]:
+        return [('openum-redirected:' + cls.__name__, '{}: {} decoded as {!r}, whose code is {}'.format(
+            cls.__name__, hx(wire[:n]), item, hx(again)))]
+    return []
+
+
+def opaque_cases():
+    cases = []
+    for cls in opaque_enum_classes():
+        try:
+            num = cls.get_param().item_num_size
+            members = list(cls.get_enum_class())
+        except Exception:  # pylint: disable=broad-except
+            continue
+        for m in members:
+            try:
+                code = m.value.code.encode(cls.get_encoding())
+            except Exception:  # pylint: disable=broad-except
+                continue
+            variants = [code, code + b'\xff', b'\xc0' + code, code[:1] + b'\x80' + code[1:], code + b'\xfe\xff',
+                        code.upper(), code + b'x', code[:-1], code + b'\x00', b'\xef\xbb\xbf' + code,
+                        code + b'\xc3', code.replace(b'/', b'\xc0\xaf')]
+            for v in variants:
+                if len(v) < 256 ** num:
+                    cases.append({'kind': 'openum', 'cls': cls.__name__, 'data': hx(len(v).to_bytes(num, 'big') + v)})
+    return cases
+
+
+def position_cases(run, tier):
+    """every member of an enumeration at every single-field position of the generated message classes: the object
+    is re-built with that member (attr.evolve), composed and parsed; the field must come back as the same member"""
+    import attr
+    from harness import clsrun, clsops
+    modelled = clsops.modelled()
+    done = set()
+    for name, gen in clsrun.all_generators():
+        if name not in modelled:
+            continue
+        try:
+            obj = gen(run.rng)
+        except Exception:  # pylint: disable=broad-except
+            continue
+        if not attr.has(type(obj)):
+            continue
+        cls = type(obj)
+        for fld in attr.fields(cls):
+            if not fld.init or (cls, fld.name) in done:
+                continue
+            value = getattr(obj, fld.name, None)
+            if not isinstance(value, enum.Enum) or not hasattr(getattr(value, 'value', None), 'code'):
+                continue
+            done.add((cls, fld.name))
+            members = list(type(value))
+            if tier == 'quick' and len(members) > 60:
+                members = members[:20] + run.rng.sample(members[20:], 40)
+            for m in members:
+                case = {'kind': 'pos', 'cls': name, 'field': fld.name, 'member': m.name}
+                run.evaluations += 1
+                run.count('positions', '{}.{}'.format(cls.__name__, fld.name))
+                try:
+                    changed = attr.evolve(obj, **{fld.name.lstrip('_'): m})
+                    wire = bytes(changed.compose())
+                except Exception:  # pylint: disable=broad-except
+                    run.count('positions', 'not-constructible')
+                    continue
+                case['data'] = hx(wire)
+                run.note_nontrivial(('pos', cls.__name__, fld.name, m.name))
+                for key, msg in position_props(cls, fld.name, m, wire):
+                    run.finding(key, msg, case)
+
+
+def position_replay(case):
+    """re-evaluate a recorded position case: the class is looked up by name among all library classes"""
+    import attr
+    _mods()
+    from cryptoparser.common.parse import ParsableBase
+    wire = core.unhx(case['data'])
+    for c in _all_sub(ParsableBase):
+        if not attr.has(c) or case['field'] not in {f.name for f in attr.fields(c)}:
+            continue
+        try:
+            back = c.parse_exact_size(wire)
+        except Exception:  # pylint: disable=broad-except
+            continue
+        if type(back) is not c:  # pylint: disable=unidiomatic-typecheck
+            continue
+        value = getattr(back, case['field'], None)
+        member = getattr(type(value), case['member'], None) if isinstance(value, enum.Enum) else None
+        if member is not None:
+            return position_props(c, case['field'], member, wire)
+    return []
+
+def position_props(cls, field, member, wire):
+    try:
+        back = cls.parse_exact_size(wire)
+    except Exception as exc:  # pylint: disable=broad-except
+        line = core.err_line(exc)
+        if line.startswith('ERR '):
+            return []       # the class does not take this member at this position (documented rejection): not a decoding
+        return [('position-error:{}.{}'.format(cls.__name__, field),
+                 '{}.{} = {}: parsing the composed message raised {}'.format(cls.__name__, field, member.name, line))]
+    got = getattr(back, field, None)
+    if got is not member:
+        return [('position-redirected:{}.{}'.format(cls.__name__, field),
+                 '{}.{}: code {} ({}) on the wire decodes as {!r}'.format(
+                     cls.__name__, field, member.value.code, member.name, getattr(got, 'name', got)))]
+    return []
+
+
 def run(run, driver_ok=True, deep=False):
     tier = 'thorough' if deep else run.tier
     cases = gen_cases(run.rng, tier)
@@ -337,6 +561,19 @@ def run(run, driver_ok=True, deep=False):
             for key, message in Dispatch.prop(case):
                 run.finding(key, message, case)
     alias_props(run)
+    for case in vector_cases(run.rng, tier):
+        run.evaluations += 1
+        run.count('containers', case['cls'])
+        run.note_nontrivial(('vec', case['cls'], tuple(case['codes'])))
+        for key, message in vector_case_props(case):
+            run.finding(key, message, case)
+    position_cases(run, tier)
+    for case in opaque_cases():
+        run.evaluations += 1
+        run.count('opaque_enums', case['cls'])
+        run.note_nontrivial(('openum', case['cls'], case['data']))
+        for key, message in opaque_case_props(case):
+            run.finding(key, message, case)
 
 
 def alias_props(run):
@@ -374,4 +611,10 @@ def replay(case):
         r = core.Run('C10', 'quick', 0)
         alias_props(r)
         return [(k, m) for k, m, _ in r.violations]
+    if case.get('kind') == 'vec':
+        return vector_case_props(case)
+    if case.get('kind') == 'openum':
+        return opaque_case_props(case)
+    if case.get('kind') == 'pos':
+        return position_replay(case)
     return Dispatch.prop(case)
